@@ -646,7 +646,17 @@ class Body:
             if p is None:
                 return None
             l = p["local"]
-            if [e for e in p["proj"] if e != "deref"]:
+            nonderef = [e for e in p["proj"] if e != "deref"]
+            if len(nonderef) == 1 and isinstance(nonderef[0], dict) and "field" in nonderef[0] and not place_has_deref({"local": l, "proj": p["proj"][:1]}):
+                # field of a tuple built in place: continue with the corresponding operand
+                sd = [d for d in self.defs().get(l, []) if d["kind"] != "mutcall"]
+                if len(sd) == 1 and sd[0]["kind"] == "assign" and sd[0]["stmt"]["rv"]["k"] == "aggregate" and sd[0]["stmt"]["rv"].get("tuple"):
+                    ops = sd[0]["stmt"]["rv"]["ops"]
+                    i = nonderef[0]["idx"]
+                    if i < len(ops):
+                        o = ops[i]
+                        continue
+            if nonderef:
                 return ("place", p)
             ds = [d for d in self.defs().get(l, []) if d["kind"] != "mutcall"]
             if 1 <= l <= self.arg_count and not ds:
